@@ -86,6 +86,10 @@ MUTATIONS = [
        "def _to_radians(angle, degrees):\n    if not degrees:\n        return np.deg2rad(angle)\n    return angle\n\n\n# TODO build rotations about axis, euler angles etc\n"),
       ("        if degrees:\n            theta = np.deg2rad(theta)\n        return Rotation(\n            np.array([[np.cos(theta), -np.sin(theta)], [np.sin(theta), np.cos(theta)]]),",
        "        theta = _to_radians(theta, degrees)\n        return Rotation(\n            np.array([[np.cos(theta), -np.sin(theta)], [np.sin(theta), np.cos(theta)]]),")]),
+    ("changed: 3-D axis/angle masks the ROWS of the eigenvector matrix", "violation", ROT,
+     [("evec[:, real_eval_mask]", "evec[real_eval_mask]")]),
+    ("changed: Affine._set_h_matrix no longer tests the corner entry", "violation", AFF,
+     [("np.allclose(value[-1, -1], 1)", "np.allclose(value[-1, :-1], 0)")]),
     ("changed: PointCloud.centre is the centre of the bounds", "violation", PCL,
      [("        return np.mean(self.points, axis=0)\n", "        return self.centre_of_bounds()\n")]),
 ]
